@@ -368,6 +368,58 @@ def sites_of(prog, f, miss_raises, proto=frozenset()):
     return out
 
 
+def check_format(ctx):
+    prog = ctx.prog
+    # C14.FORMAT: on the decision side of enforce a %-template is a
+    # constant: text taken from rules, targets or credentials that ends up
+    # *inside* the template is read for conversions of its own
+    # (`%(project_id)s` in a check string -> KeyError out of enforce)
+    enf = prog.func(POLICY + '.Enforcer.enforce')
+    nfmt = 0
+    for q, g in sorted(prog.region(enf, stop=(
+            POLICY + '.Enforcer.load_rules',
+            POLICY + '.Enforcer.check_rules')).items()):
+        if g.module.name != POLICY:
+            continue
+        pmg = parent_map(g.node)
+        for n in walk_no_nested(g.node):
+            if not (isinstance(n, ast.BinOp) and isinstance(n.op, ast.Mod)
+                    and isinstance(n.right, (ast.Dict, ast.Tuple, ast.Name,
+                                             ast.Call))):
+                continue
+            left = n.left
+            if isinstance(left, ast.Constant) and isinstance(left.value, str):
+                nfmt += 1
+                continue
+            if isinstance(left, (ast.Name, ast.Attribute)):
+                c_ = prog.const_expr(g.module, left, cls=g.cls)
+                if isinstance(c_, ast.Constant) and isinstance(c_.value, str):
+                    nfmt += 1
+                    continue
+            dyn = [x for x in ast.walk(left) if isinstance(
+                x, (ast.FormattedValue, ast.Name, ast.Attribute,
+                    ast.Subscript, ast.Call))]
+            if not isinstance(left, (ast.JoinedStr, ast.BinOp)) or not dyn:
+                continue
+            nfmt += 1
+            covered = any(catches(names, 'builtin:Exception')
+                          for h, names in covering_handlers(prog, g, pmg, n))
+            ctx.ob('C14.FORMAT', covered, ctx.where(g.module, n), g.qual,
+                   '%-template ' + U(left)[:60],
+                   'inside a catch-all guard' if covered else
+                   'the template of this %% operation is built from run-time '
+                   'text (%s): a `%%` in a rule, target or credential value '
+                   'is read as a conversion, and enforce fails with '
+                   'KeyError / ValueError / TypeError instead of deciding'
+                   % U(dyn[0])[:40])
+    if nfmt:
+        ctx.ob('C14.FORMAT', True, ctx.where(enf.module, enf.node), enf.qual,
+               '%d %%-templates on the decision side' % nfmt,
+               'constant templates (or guarded)', nontrivial=False) \
+            if not any(f_.rule == 'C14.FORMAT' for f_ in ctx.findings) \
+            else None
+
+
 def check(ctx):
     prog = ctx.prog
     ctx.use(CHECKS, POLICY)
@@ -462,54 +514,7 @@ def check(ctx):
                        'uncaught': short(ordinary)})
     ctx.floor('C14.COVER', nsites, 3, 'raising operation sites')
     ctx.extra['region'] = sorted(region)
-    # C14.FORMAT: on the decision side of enforce a %-template is a
-    # constant: text taken from rules, targets or credentials that ends up
-    # *inside* the template is read for conversions of its own
-    # (`%(project_id)s` in a check string -> KeyError out of enforce)
-    enf = prog.func(POLICY + '.Enforcer.enforce')
-    nfmt = 0
-    for q, g in sorted(prog.region(enf, stop=(
-            POLICY + '.Enforcer.load_rules',
-            POLICY + '.Enforcer.check_rules')).items()):
-        if g.module.name != POLICY:
-            continue
-        pmg = parent_map(g.node)
-        for n in walk_no_nested(g.node):
-            if not (isinstance(n, ast.BinOp) and isinstance(n.op, ast.Mod)
-                    and isinstance(n.right, (ast.Dict, ast.Tuple, ast.Name,
-                                             ast.Call))):
-                continue
-            left = n.left
-            if isinstance(left, ast.Constant) and isinstance(left.value, str):
-                nfmt += 1
-                continue
-            if isinstance(left, (ast.Name, ast.Attribute)):
-                c_ = prog.const_expr(g.module, left, cls=g.cls)
-                if isinstance(c_, ast.Constant) and isinstance(c_.value, str):
-                    nfmt += 1
-                    continue
-            dyn = [x for x in ast.walk(left) if isinstance(
-                x, (ast.FormattedValue, ast.Name, ast.Attribute,
-                    ast.Subscript, ast.Call))]
-            if not isinstance(left, (ast.JoinedStr, ast.BinOp)) or not dyn:
-                continue
-            nfmt += 1
-            covered = any(catches(names, 'builtin:Exception')
-                          for h, names in covering_handlers(prog, g, pmg, n))
-            ctx.ob('C14.FORMAT', covered, ctx.where(g.module, n), g.qual,
-                   '%-template ' + U(left)[:60],
-                   'inside a catch-all guard' if covered else
-                   'the template of this %% operation is built from run-time '
-                   'text (%s): a `%%` in a rule, target or credential value '
-                   'is read as a conversion, and enforce fails with '
-                   'KeyError / ValueError / TypeError instead of deciding'
-                   % U(dyn[0])[:40])
-    if nfmt:
-        ctx.ob('C14.FORMAT', True, ctx.where(enf.module, enf.node), enf.qual,
-               '%d %%-templates on the decision side' % nfmt,
-               'constant templates (or guarded)', nontrivial=False) \
-            if not any(f_.rule == 'C14.FORMAT' for f_ in ctx.findings) \
-            else None
+    check_format(ctx)
     # C14.SURFACE = C07.SURFACE
     from . import c07
     before = len(ctx.findings)
@@ -519,6 +524,10 @@ def check(ctx):
         fd.rule = fd.rule.replace('C07.', 'C14.')
     for o in ctx.obligations[nob:]:
         o['rule'] = o['rule'].replace('C07.', 'C14.')
+    # authorize() hands its arguments to enforce() unchanged (extra
+    # positional and keyword arguments included): a mangled call fails with
+    # TypeError before anything is decided (= C07.AUTHORIZE)
+    ctx.borrow('C14.SURFACE', c07.check_authorize, only=['C07.AUTHORIZE'])
     # ... including the documented InvalidContextObject for credentials that
     # are neither a context nor a mutable mapping (= C08.CREDS)
     from . import c08
